@@ -25,7 +25,47 @@ func main() {
 	list := flag.Bool("list", false, "print the armed properties with their level texts as JSON")
 	callers := flag.String("callers", "", "debug: print the static callers of an object spec (comma separated)")
 	writers := flag.String("writers", "", "debug: print the stores to a field spec (comma separated)")
+	atoms := flag.String("atoms", "", "debug: print the normalised condition atoms and lock keys of function specs (comma separated)")
 	flag.Parse()
+	if *atoms != "" {
+		prog, err := an.Load(*repo)
+		if err != nil {
+			fmt.Println(err)
+			os.Exit(2)
+		}
+		for _, sp := range strings.Split(*atoms, ",") {
+			src := prog.FuncSpec(sp)
+			if src == nil {
+				fmt.Println("??", sp)
+				continue
+			}
+			f := prog.Fn(src)
+			fmt.Println("==", sp)
+			for _, a := range f.CondAtoms() {
+				fmt.Println("   atom:", a)
+			}
+			for i, l := range f.FindLits() {
+				g := f.Lit(l, fmt.Sprint("lit", i))
+				for _, a := range g.CondAtoms() {
+					fmt.Println("   lit", i, "atom:", a)
+				}
+				if rf, err := g.ResultFormula(0, map[string]bool{}); err == nil && rf != nil {
+					fmt.Println("   lit", i, "is a loop-free predicate")
+				}
+			}
+			ls := f.Locks(nil)
+			seen := map[string]bool{}
+			for _, in := range ls.In {
+				for k := range in {
+					if !seen[k] {
+						seen[k] = true
+						fmt.Println("   lock:", k)
+					}
+				}
+			}
+		}
+		return
+	}
 	if *callers != "" || *writers != "" {
 		prog, err := an.Load(*repo)
 		if err != nil {
